@@ -25,6 +25,10 @@
 // BOUNDED: at most N candidates.
 use super::*;
 use crate::value_flags::PerSymbolFlags;
+
+#[path = "__verif_stubs.rs"]
+mod stubs;
+
 use crate::value_flags::ValueFlags;
 
 const N: usize = 4;
@@ -269,15 +273,23 @@ fn c02_canary_select_symbol_error_and_dynamic_paths_reachable() {
 // its section, a common symbol carries its size (the "largest common wins" key), a GNU-unique
 // symbol is GnuUnique, everything else that is defined is Strong.
 #[kani::proof]
+#[kani::unwind(20)]
+#[kani::stub(alloc::fmt::format, stubs::verif_format_stub)]
 fn c02_symbol_strength_of_reads_binding_and_common_size() {
     let mut sym: crate::elf::SymtabEntry = unsafe { core::mem::zeroed() };
     sym.st_info = kani::any();
     sym.st_shndx.set(object::LittleEndian, kani::any());
     let size: u64 = kani::any();
     sym.st_size.set(object::LittleEndian, size);
+    // a common symbol's st_value is its alignment: wild accepts powers of two up to 64 KiB
+    // (Alignment::new, C29); a COMMON symbol with any other st_value is outside this obligation
+    // (wild then treats it as an ordinary definition - observed by reading, not claimed).
+    let align: u64 = kani::any();
+    sym.st_value.set(object::LittleEndian, align);
+    let shndx = sym.st_shndx.get(object::LittleEndian);
+    kani::assume(shndx != 0xfff2 || (align.is_power_of_two() && align <= 0x10000));
     let got = SymbolStrength::of(&sym);
     let bind = sym.st_info >> 4;
-    let shndx = sym.st_shndx.get(object::LittleEndian);
     let want = if bind == 2 {
         SymbolStrength::Weak
     } else if shndx == 0xfff2 {
